@@ -80,5 +80,10 @@ PROPS = {
     'C14': {'level': 'model_checking', 'mc': [MC_SNAP_FAIL], 'families': [fam('fault', 'c14', 12, 12, shards=6), fam('fault', 'c14t', 0, 6, shards=6)], 'trace': COLUMN_TRACE, 'assumptions': []},
     'C15': seq_prop('c15', 100, 2000, mc=[MC_CONC_STRICT], more=[fam('conc', 'c15', 32, 500)]),
     'C16': seq_prop('c16', 150, 2500, mc=[MC_STORE_STRICT]),
+    'C17': {'level': 'model_checking', 'assumptions': ['wall-clock: removals are timestamped inside the logger callback; "must be gone" leaves 10 intervals + 3 s of slack'],
+            'mc': [{'module': 'Expire', 'cfg': 'MC_Expire.cfg', 'constants': {}, 'quick': {'R3': ''}, 'thorough': {'R3': ', r3'}, 'deadlock': True},
+                   {'module': 'Expire', 'cfg': 'MC_Expire.cfg', 'constants': {}, 'quick': {'R3': ''}, 'thorough': {'R3': ', r3'}, 'asbuilt': True, 'deadlock': True}],
+            'trace': {'module': 'ExpireTrace', 'cfg': 'ExpireTrace.cfg'},
+            'families': [fam('exp', 'c17', 16, 64, shards=16)]},
     'C19': seq_prop('c19', 150, 2500, mc=[MC_STORE_STRICT]),
 }
